@@ -106,7 +106,7 @@ structure SInv (c : ClientCfg) (t : Txn) (y : Sys) : Prop where
   g : GInv t y.store
   pc : y.pc ≤ y.pcMax
   e : t.ip < y.pcMax → HasC t.start (y.store t.primary)
-  f : ∀ i ms, i < y.pcMax → (program c t)[i]? = some (.prewrite ms) → ∀ m ∈ ms, Touched t.start (y.store m.key)
+  f : ∀ i ms, i < y.pcMax → (program c t)[i]? = some (.prewrite ms) → ∀ m ∈ ms, m ∈ t.muts → Touched t.start (y.store m.key)
   lc : ∀ cv, y.learned = some (.committed cv) → cv = t.cv ∧ HasC t.start (y.store t.primary)
   lr : y.learned = some .rolledBack → HasR t.start (y.store t.primary)
 
@@ -114,12 +114,12 @@ theorem SInv.allTouched (hc : c.Good) (wf : TxnWF t) {y : Sys} (h : SInv c t y) 
     AllTouched t y.store := by
   intro m hm
   obtain ⟨i, ms, hi, hp, hmem⟩ := program_cover (c := c) hc wf hm
-  exact h.f i ms (by omega) hp m hmem
+  exact h.f i ms (by omega) hp m hmem hm
 
 /-- executing the RPC with index `i ≤ pcMax` -/
 theorem exec_inv (hc : c.Good) (wf : TxnWF t) {y : Sys} (h : SInv c t y) {i : Nat} (hi : i ≤ y.pcMax)
     {rpc : Rpc} (hr : (program c t)[i]? = some rpc) :
-    GInv t (execRpc c t rpc y.store).1 ∧ SMono t.start y.store (execRpc c t rpc y.store).1 ∧
+    GInv t (execRpc c t rpc y.store).1 ∧ SMono t y.store (execRpc c t rpc y.store).1 ∧
     (i = t.ip → (execRpc c t rpc y.store).2 = true → HasC t.start ((execRpc c t rpc y.store).1 t.primary)) ∧
     (∀ ms, rpc = .prewrite ms → (execRpc c t rpc y.store).2 = true →
       ∀ m ∈ ms, Touched t.start ((execRpc c t rpc y.store).1 m.key)) := by
@@ -150,28 +150,28 @@ theorem exec_inv (hc : c.Good) (wf : TxnWF t) {y : Sys} (h : SInv c t y) {i : Na
       exact ⟨this.1, this.2, fun e => by omega, fun ms hms => by cases hms⟩
 
 /-- a store change that preserves `GInv` and loses nothing keeps the bookkeeping valid -/
-theorem SInv.store {y : Sys} (h : SInv c t y) {s' : Store} (g : GInv t s') (mono : SMono t.start y.store s')
+theorem SInv.store {y : Sys} (h : SInv c t y) (wf : TxnWF t) {s' : Store} (g : GInv t s') (mono : SMono t y.store s')
     (y' : Sys) (hs : y'.store = s') (hpc : y'.pc ≤ y'.pcMax) (hmax : y'.pcMax = y.pcMax) (hl : y'.learned = y.learned) :
     SInv c t y' := by
   refine ⟨hs ▸ g, hpc, ?_, ?_, ?_, ?_⟩
-  · intro hlt; rw [hs]; exact (mono t.primary).c (h.e (hmax ▸ hlt))
-  · intro i ms hi hp m hm; rw [hs]; exact (mono m.key).t (h.f i ms (hmax ▸ hi) hp m hm)
-  · intro cv hcv; rw [hs]; obtain ⟨a, b⟩ := h.lc cv (hl ▸ hcv); exact ⟨a, (mono t.primary).c b⟩
-  · intro hrb; rw [hs]; exact (mono t.primary).r (h.lr (hl ▸ hrb))
+  · intro hlt; rw [hs]; exact (mono t.primary wf.primIsKey).c (h.e (hmax ▸ hlt))
+  · intro i ms hi hp m hm hmt; rw [hs]; exact (mono m.key ⟨m, hmt, rfl⟩).t (h.f i ms (hmax ▸ hi) hp m hm hmt)
+  · intro cv hcv; rw [hs]; obtain ⟨a, b⟩ := h.lc cv (hl ▸ hcv); exact ⟨a, (mono t.primary wf.primIsKey).c b⟩
+  · intro hrb; rw [hs]; exact (mono t.primary wf.primIsKey).r (h.lr (hl ▸ hrb))
 
-theorem SInv.same_store {y : Sys} (h : SInv c t y) (y' : Sys) (hs : y'.store = y.store)
+theorem SInv.same_store {y : Sys} (h : SInv c t y) (wf : TxnWF t) (y' : Sys) (hs : y'.store = y.store)
     (hpc : y'.pc ≤ y'.pcMax) (hmax : y'.pcMax = y.pcMax) (hl : y'.learned = y.learned) : SInv c t y' :=
-  h.store h.g (SMono.refl _ _) y' hs hpc hmax hl
+  h.store wf h.g (SMono.refl _ _) y' hs hpc hmax hl
 
-theorem SInv.preserved' (hc : c.Good) (wf : TxnWF t) {y : Sys} (h : SInv c t y) (op : Op) :
-    SInv c t (step c t y op) ∧ SMono t.start y.store (step c t y op).store := by
+theorem SInv.preserved' (hc : c.Good) (wf : TxnWF t) {y : Sys} (h : SInv c t y) (op : Op) (hd : op.Distinct t) :
+    SInv c t (step c t y op) ∧ SMono t y.store (step c t y op).store := by
   cases op with
   | deliver =>
     simp only [step]
     split
     · exact ⟨h, SMono.refl _ _⟩
     · split
-      · exact ⟨h.same_store _ rfl h.pc rfl rfl, SMono.refl _ _⟩
+      · exact ⟨h.same_store wf _ rfl h.pc rfl rfl, SMono.refl _ _⟩
       · rename_i rpc hr
         obtain ⟨g, mono, hcP, hpre⟩ := exec_inv hc wf h h.pc hr
         split
@@ -182,16 +182,16 @@ theorem SInv.preserved' (hc : c.Good) (wf : TxnWF t) {y : Sys} (h : SInv c t y) 
           · intro hlt
             show HasC t.start ((execRpc c t rpc y.store).1 t.primary)
             by_cases hold : t.ip < y.pcMax
-            · exact (mono t.primary).c (h.e hold)
+            · exact (mono t.primary wf.primIsKey).c (h.e hold)
             · have hpc := h.pc
               have : y.pc = t.ip := by
                 have : t.ip < max y.pcMax (y.pc + 1) := hlt
                 omega
               exact hcP this hok
-          · intro i ms hi hp m hm
+          · intro i ms hi hp m hm hmt
             show Touched t.start ((execRpc c t rpc y.store).1 m.key)
             by_cases hold : i < y.pcMax
-            · exact (mono m.key).t (h.f i ms hold hp m hm)
+            · exact (mono m.key ⟨m, hmt, rfl⟩).t (h.f i ms hold hp m hm hmt)
             · have hpc := h.pc
               have : i = y.pc := by
                 have : i < max y.pcMax (y.pc + 1) := hi
@@ -202,31 +202,31 @@ theorem SInv.preserved' (hc : c.Good) (wf : TxnWF t) {y : Sys} (h : SInv c t y) 
               exact hpre ms hp hok m hm
           · intro cv hcv
             obtain ⟨a, b⟩ := h.lc cv hcv
-            exact ⟨a, (mono t.primary).c b⟩
+            exact ⟨a, (mono t.primary wf.primIsKey).c b⟩
           · intro hrb
-            exact (mono t.primary).r (h.lr hrb)
-        · exact ⟨h.store g mono _ rfl h.pc rfl rfl, mono⟩
+            exact (mono t.primary wf.primIsKey).r (h.lr hrb)
+        · exact ⟨h.store wf g mono _ rfl h.pc rfl rfl, mono⟩
   | lose =>
     simp only [step]
     split
     · exact ⟨h, SMono.refl _ _⟩
     · split
-      · exact ⟨h.same_store _ rfl h.pc rfl rfl, SMono.refl _ _⟩
+      · exact ⟨h.same_store wf _ rfl h.pc rfl rfl, SMono.refl _ _⟩
       · rename_i rpc hr
         obtain ⟨g, mono, _, _⟩ := exec_inv hc wf h h.pc hr
-        exact ⟨h.store g mono _ rfl h.pc rfl rfl, mono⟩
+        exact ⟨h.store wf g mono _ rfl h.pc rfl rfl, mono⟩
   | drop =>
     simp only [step]
     split
     · exact ⟨h, SMono.refl _ _⟩
-    · exact ⟨h.same_store _ rfl h.pc rfl rfl, SMono.refl _ _⟩
+    · exact ⟨h.same_store wf _ rfl h.pc rfl rfl, SMono.refl _ _⟩
   | notLeader =>
     simp only [step]
     split
     · exact ⟨h, SMono.refl _ _⟩
     · split
-      · exact ⟨h.same_store _ rfl h.pc rfl rfl, SMono.refl _ _⟩
-      · exact ⟨h.same_store _ rfl h.pc rfl rfl, SMono.refl _ _⟩
+      · exact ⟨h.same_store wf _ rfl h.pc rfl rfl, SMono.refl _ _⟩
+      · exact ⟨h.same_store wf _ rfl h.pc rfl rfl, SMono.refl _ _⟩
   | redeliver i =>
     simp only [step]
     split
@@ -235,19 +235,19 @@ theorem SInv.preserved' (hc : c.Good) (wf : TxnWF t) {y : Sys} (h : SInv c t y) 
       · exact ⟨h, SMono.refl _ _⟩
       · rename_i rpc hr
         obtain ⟨g, mono, _, _⟩ := exec_inv hc wf h hi hr
-        exact ⟨h.store g mono _ rfl h.pc rfl rfl, mono⟩
+        exact ⟨h.store wf g mono _ rfl h.pc rfl rfl, mono⟩
     · exact ⟨h, SMono.refl _ _⟩
   | restart =>
     simp only [step]
     split
     · exact ⟨h, SMono.refl _ _⟩
-    · exact ⟨h.same_store _ rfl (Nat.zero_le _) rfl rfl, SMono.refl _ _⟩
+    · exact ⟨h.same_store wf _ rfl (Nat.zero_le _) rfl rfl, SMono.refl _ _⟩
   | check cur =>
     simp only [step]
     obtain ⟨g, mono, hcm, hrb⟩ := check_ginv wf cur y.store h.g
     refine ⟨⟨g, h.pc, ?_, ?_, ?_, ?_⟩, mono⟩
-    · intro hlt; exact (mono t.primary).c (h.e hlt)
-    · intro i ms hi hp m hm; exact (mono m.key).t (h.f i ms hi hp m hm)
+    · intro hlt; exact (mono t.primary wf.primIsKey).c (h.e hlt)
+    · intro i ms hi hp m hm hmt; exact (mono m.key ⟨m, hmt, rfl⟩).t (h.f i ms hi hp m hm hmt)
     · intro cv hcv
       show cv = t.cv ∧ HasC t.start ((y.store.set t.primary (checkTxnStatus t.start cur (y.store t.primary)).1) t.primary)
       split at hcv
@@ -257,14 +257,14 @@ theorem SInv.preserved' (hc : c.Good) (wf : TxnWF t) {y : Sys} (h : SInv c t y) 
         exact hcm cv' hst
       · simp at hcv
       · obtain ⟨a, b⟩ := h.lc cv hcv
-        exact ⟨a, (mono t.primary).c b⟩
+        exact ⟨a, (mono t.primary wf.primIsKey).c b⟩
     · intro hl
       show HasR t.start ((y.store.set t.primary (checkTxnStatus t.start cur (y.store t.primary)).1) t.primary)
       split at hl
       · simp at hl
       · rename_i hst
         exact hrb hst
-      · exact (mono t.primary).r (h.lr hl)
+      · exact (mono t.primary wf.primIsKey).r (h.lr hl)
   | resolve ks =>
     simp only [step]
     have hown : ∀ k ∈ t.ownKeys ks, ∃ m ∈ t.muts, m.key = k := by
@@ -277,32 +277,28 @@ theorem SInv.preserved' (hc : c.Good) (wf : TxnWF t) {y : Sys} (h : SInv c t y) 
       · exact ⟨h, SMono.refl _ _⟩
       · obtain ⟨hcv, hP⟩ := h.lc cv hl
         obtain ⟨g, mono⟩ := resolve_ginv wf cv (t.ownKeys ks) y.store h.g (Or.inl ⟨hcv, hP⟩) hown
-        exact ⟨h.store g mono _ rfl h.pc rfl rfl, mono⟩
+        exact ⟨h.store wf g mono _ rfl h.pc rfl rfl, mono⟩
     · rename_i hl
       obtain ⟨g, mono⟩ := resolve_ginv wf 0 (t.ownKeys ks) y.store h.g (Or.inr ⟨rfl, h.lr hl⟩) hown
-      exact ⟨h.store g mono _ rfl h.pc rfl rfl, mono⟩
+      exact ⟨h.store wf g mono _ rfl h.pc rfl rfl, mono⟩
     · exact ⟨h, SMono.refl _ _⟩
 
-  | foreign k fts ttl v =>
+  | other r =>
     simp only [step]
-    obtain ⟨g, mono⟩ := foreign_ginv wf y.store h.g k fts ttl v
-    exact ⟨h.store g mono _ rfl h.pc rfl rfl, mono⟩
+    obtain ⟨g, mono⟩ := other_ginv wf c.perc y.store h.g r hd
+    exact ⟨h.store wf g mono _ rfl h.pc rfl rfl, mono⟩
 
-  | foreignAbort k fts =>
-    simp only [step]
-    obtain ⟨g, mono⟩ := foreignAbort_ginv wf y.store h.g k fts
-    exact ⟨h.store g mono _ rfl h.pc rfl rfl, mono⟩
+theorem SInv.preserved (hc : c.Good) (wf : TxnWF t) {y : Sys} (h : SInv c t y) (op : Op) (hd : op.Distinct t) :
+    SInv c t (step c t y op) :=
+  (h.preserved' hc wf op hd).1
 
-theorem SInv.preserved (hc : c.Good) (wf : TxnWF t) {y : Sys} (h : SInv c t y) (op : Op) : SInv c t (step c t y op) :=
-  (h.preserved' hc wf op).1
-
-theorem SInv.run_inv (hc : c.Good) (wf : TxnWF t) : ∀ (ops : List Op) {y : Sys}, SInv c t y →
-    SInv c t (run c t y ops) ∧ SMono t.start y.store (run c t y ops).store
-  | [], _, h => ⟨h, SMono.refl _ _⟩
-  | op :: ops, _, h => by
+theorem SInv.run_inv (hc : c.Good) (wf : TxnWF t) : ∀ (ops : List Op) {y : Sys}, (∀ op ∈ ops, op.Distinct t) → SInv c t y →
+    SInv c t (run c t y ops) ∧ SMono t y.store (run c t y ops).store
+  | [], _, _, h => ⟨h, SMono.refl _ _⟩
+  | op :: ops, _, hd, h => by
     simp only [run, List.foldl_cons]
-    have h1 := h.preserved' hc wf op
-    have h2 := SInv.run_inv hc wf ops h1.1
+    have h1 := h.preserved' hc wf op (hd op (List.mem_cons_self ..))
+    have h2 := SInv.run_inv hc wf ops (fun o ho => hd o (List.mem_cons_of_mem _ ho)) h1.1
     exact ⟨h2.1, h1.2.trans h2.2⟩
 
 /-- a store without traces of the transaction -/
